@@ -198,6 +198,26 @@ func (v *PacketDslVisitorImpl) VisitPacketDefinition(ctx *gen.PacketDefinitionCo
 				Msg:    "Unknown field " + target + " for @lengthOf of field " + lengthField.Name,
 			})
 			lengthField = nil
+		} else {
+			// every target reserves the slot where the length field stands and fills it in once the
+			// measured field has been written: the length field has to come first
+			lengthAt, targetAt := -1, -1
+			for i, f := range fields {
+				if f == lengthField {
+					lengthAt = i
+				}
+				if f.Name == target && targetAt < 0 {
+					targetAt = i
+				}
+			}
+			if lengthAt >= 0 && targetAt <= lengthAt {
+				v.BinModel.AddSyntaxError(&model.SyntaxError{
+					Line:   fieldLine[lengthField],
+					Column: lengthField.Column,
+					Msg:    "Field " + target + " measured by @lengthOf of field " + lengthField.Name + " must be declared after it",
+				})
+				lengthField = nil
+			}
 		}
 	}
 	for _, f := range fields {
